@@ -206,6 +206,13 @@ SUB_CASES = [
               "'counts': collections.OrderedDict(x=1)}"),
     ("Table", "Table([[decimal.Decimal('1.10')], (MyDec('2'),)], decimal.Decimal('3'), datetime.date(2024, 2, 29), datetime.date(2024, 3, 1), [decimal.Decimal('0')])"),
     ("list[Table]", "[Table([], MyDec('3'), None, decimal.Decimal('4'))]"),
+    # subscripted iterables that are not Collections (Iterator / Generator / Reversible): members are marshalled by their type all the same
+    ("typing.Iterator[datetime.date]", "iter([datetime.date(2020, 1, 1), datetime.date(2021, 2, 3)])"),
+    ("typing.Generator[decimal.Decimal, None, None]", "(d for d in [decimal.Decimal('1.0'), MyDec('2.50')])"),
+    ("typing.Reversible[datetime.date]", "[datetime.date(2020, 1, 1)]"), ("typing.Iterator[Stamp]", "iter([Stamp(datetime.date(2021, 2, 3))])"),
+    ("typing.Iterator[int]", "iter([Level.LOW, True])"), ("typing.Iterator[typing.List[int]]", "iter([[1, 2], [3]])"),
+    ("dict[str, typing.Iterator[datetime.date]]", "{'a': iter([datetime.date(2020, 1, 1)])}"),
+    ("collections.abc.Iterator[datetime.date]", "iter([datetime.date(2020, 1, 1)])"),
     # the KEYS of a mapping given for a structured type: spelled with a str subclass or a str enum member, they name the same fields
     ("PlainTD", "{Key.A: 1, Key.NAME: 'n'}"), ("PlainTD", "{S('a'): True, S('name'): S('n')}"), ("list[PlainTD]", "[{Key.A: 1, 'name': 'n'}]"),
     ("dict[str, PlainTD]", "{Key.A: {S('a'): 1, Key.NAME: Color.RED}}"), ("typing.Optional[PlainTD]", "collections.OrderedDict([(Key.A, 1), (Key.NAME, 'n')])"),
